@@ -42,6 +42,13 @@ def appends(v, stmts):
             out.append((s.value.func.value.id, s, v.term(s.value.args[0], at=s)))
     return out
 
+AUTOMUT_TRIAGE = [
+    (r"_sel_convert_input$|Mesh\.sel$", r"dtype, type\(.*attribute (pmin->pmax|pmax->pmin)", "equivalent: both corners of a region have one dtype"),
+    (r"_sel_convert_input$", r"test_point = self\.region\.pmin\.copy.*pmin->pmax", "equivalent: only the selected coordinate of the test "
+     "point is looked at, and pmax lies in the (closed) region like pmin"),
+    (r"Field\.resample$", r"drop keyword dtype=", "equivalent: the validity setter converts the resampled 0/1 values back to bool"),
+]
+
 
 def run(chk):
     repo = chk.repo
@@ -72,6 +79,11 @@ def d1_sel_convert(chk, repo):
     h = v.ctx.head_of(t)
     chk.require(h and h[0] == "tuple" and len(v.ctx.args_of(t)) == 4, "_sel_convert_input: return is not a 4-tuple")
     dim, di, sel, seli = v.ctx.args_of(t)
+    mem = phi_members(v.ctx, dim)
+    okdim = len(mem) == 2 and any(v.eq(m_, v.spec("args[0]")) for m_ in mem) and \
+        any(v.eq(m_, v.ctx.mk(("unpack", 0), (v.spec("list(kwargs.items())[0]"),))) for m_ in mem)
+    chk.ob("mesh.Mesh._sel_convert_input::dim-is-the-only-argument", okdim, "C07.D1",
+           f"dim = {v.show(dim)[:160]}; expected the single positional argument or the name of the single keyword", v.f, r)
     chk.ob("mesh.Mesh._sel_convert_input::axis-of-dim", v.eq(di, v.ctx.mk(("call", "Region._dim2index", 2, ()), (v.spec("self.region"), dim))),
            "C07.D1", f"returned axis index {v.show(di)[:120]} must be region._dim2index of the returned dim", v.f, r)
     # per block: the value whose term is point2index(TP)[k] (index-like) and the one that is index2point(...)[k']
@@ -180,13 +192,58 @@ def d2_field_sel(chk, repo):
            f"value={v.show(a.get('value'))[:200]}", v.f, r)
     chk.ob("field.Field.sel::mesh", a.get("mesh") is not None and v.eq(a["mesh"], v.spec("self.mesh.sel(*args, **kwargs)")), "C07.D2",
            f"mesh={v.show(a.get('mesh'))}", v.f, r)
+    # the one-dimensional case: Mesh.sel cannot build a 0-d mesh and says so; only that refusal may be turned into a bare array
+    okh = False
+    msg = None
+    for st in v.stmts():
+        if isinstance(st, ast.Try):
+            for h in st.handlers:
+                for s2 in walk_stmts(h.body):
+                    if isinstance(s2, ast.Raise) and s2.exc is None:
+                        par = v.cfg.parent.get(id(s2))
+                        if par and isinstance(par[0], ast.If) and par[1] == "body" and isinstance(par[0].test, ast.Compare) \
+                                and len(par[0].test.ops) == 1 and isinstance(par[0].test.ops[0], ast.NotIn) \
+                                and isinstance(par[0].test.left, ast.Constant) and isinstance(par[0].test.left.value, str):
+                            msg = par[0].test.left.value
+                            cmpr = par[0].test.comparators[0]
+                            okh = isinstance(cmpr, ast.Call) and ast.unparse(cmpr.func) == "str" and h.name is not None and \
+                                ast.unparse(cmpr.args[0]) == h.name
+    chk.ob("field.Field.sel::only-the-empty-mesh-refusal-is-absorbed", okh, "C07.D2",
+           "in the handler of Mesh.sel's ValueError every error whose text does NOT contain the empty-region message must be "
+           "re-raised (the one-dimensional case returns the bare array)", v.f)
+    if msg is not None:
+        ri = FV(repo, "region.Region.__init__")
+        texts = [x.value for r_, n_ in ri.raises() if n_ == "ValueError" for x in ast.walk(r_) if isinstance(x, ast.Constant) and isinstance(x.value, str)]
+        chk.ob("field.Field.sel::empty-region-message-agrees", any(msg in t_ for t_ in texts), "C07.D2",
+               f"Field.sel recognises the refusal by the text {msg!r}; Region.__init__ raises ValueError with {texts[:6]}", v.f)
     for kw in ("nvdim", "vdims", "unit", "vdim_mapping"):
         chk.ob(f"field.Field.sel::kw={kw}", a.get(kw) is not None and v.eq(a[kw], v.spec(f"self.{kw}")), "C07.D2",
                f"{kw}={v.show(a.get(kw))}", v.f, r, nontrivial=False)
 
 
+def d3_subregion_loops(chk, repo):
+    # the subregion loops of a selection always run: the setter stores a dict, never None
+    from ..lib import cond_implies, path_term
+    s_ = FV(repo, "mesh.Mesh.sel")
+    nloops = 0
+    for st in s_.stmts():
+        if isinstance(st, ast.For) and s_.eq(s_.term(st.iter, at=st), s_.spec("self.subregions.items()")):
+            nloops += 1
+            pt = path_term(s_, st)
+            outer = [p_ for p_, f_ in s_.cfg.enclosing(st) if isinstance(p_, ast.If)]
+            top = outer[-1] if outer else None
+            ctx_ = path_term(s_, top.body[0] if st in list(walk_stmts(top.body)) else top.orelse[0]) if top is not None else None
+            has = s_.spec("self.subregions is not None")
+            ok = ctx_ is not None and cond_implies(s_, s_.ev._bool("and", [ctx_, has]), pt)
+            chk.ob(f"mesh.Mesh.sel::subregion-loop#{nloops}::always-runs", ok, "C07.D3",
+                   f"the loop over the subregions runs under {s_.show(pt)[:200]}: it must run whenever its selection kind is "
+                   "handled (subregions are never None)", s_.f, st)
+    chk.require(nloops >= 2, "Mesh.sel: expected a subregion loop for plane and for range selections")
+
+
 # ------------------------------------------------------------------ D3
 def d3_mesh_sel(chk, repo):
+    d3_subregion_loops(chk, repo)
     chk.rule("C07.D3", "Mesh.sel: a plane keeps all axes but the chosen one, in order; a range sets the faces of the chosen axis to "
                        "centre -/+ cell/2 and keeps the rest; subregions are kept iff they overlap and are clipped with max/min on "
                        "the chosen axis only")
@@ -471,8 +528,20 @@ def corner_copies_hold_floats(chk, repo, pid, quals, floor=8):
                     continue
                 n += 1
                 ok = False
-                for aid in v.ctx.all_atoms(b):
-                    hd, ar = v.ctx.atoms[aid]
+                # conversions applied to the copied corner array itself (not ones buried in the dtype expression)
+                chain = []
+                cur = b
+                for _ in range(12):
+                    a0 = cur.single_atom()
+                    if a0 is None:
+                        break
+                    hd, ar = v.ctx.atoms[a0]
+                    if hd[0] == "call" and ar:
+                        chain.append((hd, ar))
+                        cur = ar[0]
+                    else:
+                        break
+                for hd, ar in chain:
                     if hd[0] == "call" and hd[1] in (".astype", "astype") and len(ar) >= 2:
                         d = ar[1]
                         hdt = v.ctx.head_of(d)
